@@ -139,6 +139,7 @@ def main(argv=None) -> int:
     samples: list = []
     evaluations = 0
     inconclusive: list[str] = []
+    slow_runs: list[str] = []
     violations: list[dict] = []
     viol_more: dict[str, int] = {}
     for idx, status, records, tail, _elapsed in sorted(results):
@@ -161,6 +162,8 @@ def main(argv=None) -> int:
                 counters[rec["name"]] = counters.get(rec["name"], 0) + int(rec["n"])
             elif kind == "set":
                 sets.setdefault(rec["name"], set()).add(rec["v"])
+            elif kind == "slow":
+                slow_runs.append(f"shard {idx}: {rec.get('why')}")
             elif kind == "inconclusive":
                 inconclusive.append(f"shard {idx}: {rec.get('why')}")
 
@@ -184,6 +187,8 @@ def main(argv=None) -> int:
         inconclusive.append(f"only {evaluations} evaluations (floor {min_eval})")
     if len(sigs) < min_nontrivial:
         inconclusive.append(f"only {len(sigs)} distinct non-trivial cases (floor {min_nontrivial})")
+    if len(slow_runs) > max(3, evaluations // 50):
+        inconclusive.append(f"{len(slow_runs)} runs were ended by the watchdog while still progressing (too many to ignore)")
     for name, floor in getattr(mod, "REACH_FLOORS", {}).items():
         if counters.get(name, 0) < floor:
             inconclusive.append(f"monitor counter {name}={counters.get(name, 0)} below floor {floor}")
@@ -200,6 +205,7 @@ def main(argv=None) -> int:
         "known_findings_hit": known_hits,
         "known_findings_sample": known_samples,
         "inconclusive_reasons": inconclusive[:10],
+        "slow_runs_not_judged": {"count": len(slow_runs), "examples": slow_runs[:5]},
     }
     if getattr(mod, "EXHAUSTIVE", {}).get(args.tier):
         coverage["exhaustive"] = True
